@@ -28,7 +28,7 @@ CLAIMED = {
               "light-quark column identically in L and the L, L^2 coefficients of the gluon column exactly (its L-independent term within 1e-5, a ground numerical evaluation), both mass schemes; "
               "(2) A_qq,ns(1) = 0 at both orders; (3) RG structure of the L dependence derived from f^(nf+1) = A f^(nf): dA1/dL = gamma0_emb(nf) - gamma0(nf+1) on all nine entries for symbolic N "
               "(unpolarised; polarised on the gluon and light-quark columns; non-singlet matrix), and the O(a_s^2) double logs [L^2]A2 = 1/2 (A1' gamma0_emb - gamma0' A1' + beta0' A1' - 4/3 T_R gamma0_emb) "
-              "and the single logs [L]A2 = gamma1_emb(nf) - gamma1(nf+1) (NLO anomalous dimensions) on the gluon and light-quark columns, the non-singlet A_qq,ns^(2) logs, nf = 3, 4, 5 -- i.e. the complete L dependence of the O(a_s^2) matching on those columns; the O(a_s^3) triple logs through the dispatcher at 6 sample moments to 1e-12 (the code's coefficients are 16-digit decimals). Also: the L^2 coefficient of the O(a_s^3) singlet elements against the a^3 order of the same chain rule (7 moments, 1e-4), and every O(a_s^2)/O(a_s^3) element evaluated on an empty harmonic-sum cache equals the entry of the tower (no dependence on the cache history)."),
+              "and the single logs [L]A2 = gamma1_emb(nf) - gamma1(nf+1) (NLO anomalous dimensions) on the gluon and light-quark columns, the non-singlet A_qq,ns^(2) logs, nf = 3, 4, 5 -- i.e. the complete L dependence of the O(a_s^2) matching on those columns; the O(a_s^3) triple logs through the dispatcher at 6 sample moments to 1e-12 (the code's coefficients are 16-digit decimals). Also: the L^2 coefficient of the O(a_s^3) singlet elements against the a^3 order of the same chain rule (7 moments, 1e-4), and every O(a_s^2)/O(a_s^3) element evaluated on an empty harmonic-sum cache equals the entry of the tower (no dependence on the cache history). MSbar masses: the L and L^2 coefficients of A2 equal those of the pole scheme."),
         note=COMMON_NOTE + "Not claimed: the lower logs and sum rules at O(a_s^3) (parametrised, removable singularities at N = 2), the intrinsic heavy-quark column beyond O(a_s) (no O(a_s^2) intrinsic matching implemented), the time-like RG structure.",
         technique="contract-based deductive verification: symbolic execution over the polygamma contract + exact normal form; RG equations as specification",
         design_ref="DESIGN.md section 2, C29",
@@ -259,7 +259,7 @@ CLAIMED = {
               "for the three branches on every path (paths that skip a rotation must satisfy it after substituting the path condition); to_evol / "
               "to_uni_evol apply the tables on the requested sides; xgrid_reshape contracts the matrix of the dispatcher on the operator grid with the "
               "output index and that of the dispatcher on the input grid with the input index (symbolic matrices for the get_interpolation contract), "
-              "errors alike; xgrid_check skips only identical grids. One defect class (allclose shortcuts) repaired by a fix commit."),
+              "errors alike; xgrid_check skips only identical grids. One defect class (allclose shortcuts) repaired by a fix commit. Cases with the same new grid on both sides."),
         note=COMMON_NOTE + "Shape-bounded (value-unbounded). The grid statement for representable functions follows from the wiring with C34's reproduction lemma.",
         technique="contract-based deductive verification: path-exhaustive symbolic execution + exact normal form / z3",
         design_ref="DESIGN.md section 2, C42",
@@ -281,7 +281,7 @@ CLAIMED = {
         text=("apply_pdf executed with the PDF as an uninterpreted function xf(pid,x,Q2), an enumerated set of missing flavours, a ghost EKO with fully "
               "symbolic (14,2,14,2) operators and errors on a 2-point symbolic grid: the result equals the contraction O[a,j,b,k] xf/x, with and without "
               "the rotation to the QCD / unified evolution basis (label order included) and with a symbolic re-interpolation matrix standing for "
-              "get_interpolation (C34 contract); errors likewise, absent when the operator has none."),
+              "get_interpolation (C34 contract); errors likewise, absent when the operator has none. The re-interpolation is built on the EKO's grid semantically (same nodes and same linear / logarithmic flag)."),
         note=COMMON_NOTE + "EKO replaced by a ghost map (C37); interpolation dispatcher by its contract (C34); einsum shape-uniformity.",
         technique="contract-based deductive verification: symbolic execution with uninterpreted PDF + exact normal form",
         design_ref="DESIGN.md section 2, C43",
@@ -320,7 +320,7 @@ CLAIMED = {
         text=("_dot4 proved equal to the matrix contraction on fully symbolic tensors, _dotop's value/error rule, join = e_k ... e_1 for k = 1..7 over free "
               "non-commuting symbols, _elements = image of matched_path with cliff <=> target on a matching scale for all 16 (nf0,nff) pairs with symbolic "
               "scales on every feasible path, _create = duplicate-free union for several target patterns, and managed.solve's loop structure over ghost "
-              "inventories: each recipe computed once, each target stored once as the ordered product of its parts. The recipe list of every target is also compared with the flavour-number path of the statement written independently of Atlas (heavy quark of each matching, inverse flag)."),
+              "inventories: each recipe computed once, each target stored once as the ordered product of its parts. The recipe list of every target is also compared with the flavour-number path of the statement written independently of Atlas (heavy quark of each matching, inverse flag). commons.atlas builds the walls in quark order (also for ratios that put them out of ascending order) with the origin of the operator card."),
         note=COMMON_NOTE + "einsum shape-uniformity assumed; inventories as maps (C37); number of targets in _create bounded (1-3 targets, 5 equality patterns).",
         technique="contract-based deductive verification: symbolic tensors, free-algebra words, path-exhaustive execution with z3",
         design_ref="DESIGN.md section 2, C02",
@@ -456,7 +456,7 @@ CLAIMED = {
         text=("exp_matrix_2D on a fully symbolic 2x2 matrix: projector algebra, completeness, spectral reconstruction, trace/determinant of the eigenvalues "
               "and exp = sum exp(l_i) e_i as polynomial identities modulo the defining relation of the square root (valid over C, either branch); "
               "exp_matrix (dims 2, 4) relative to the assumed LAPACK eig contract imposed by the parametrisation M := V diag(w) V^-1. With the spectral-"
-              "calculus lemma this is 'equals the matrix exponential'. Accuracy of LAPACK is not covered."),
+              "calculus lemma this is 'equals the matrix exponential'. Accuracy of LAPACK is not covered. Six concrete complex 2x2 matrices (three with a purely imaginary discriminant) are run natively against the power series of exp and the projector algebra (bounded part)."),
         note=COMMON_NOTE + "Assumed: np.linalg.eig returns a diagonalising pair; lemma spectral calculus.",
         technique="contract-based deductive verification: symbolic execution + exact normal form modulo radical relations",
         design_ref="DESIGN.md section 2, C23",
